@@ -13,7 +13,7 @@
  R5 total        the only throw sites reachable on the serialisation path of a class are the cursor's own bound checks,
                  discharged range checks and the tabled, documented ones (PPI, PKTAP, RTP's defensive throw, ...).
 """
-from vlib import facts, cfg, cachepair, streamfx as sx, exc
+from vlib import facts, cfg, cond, cachepair, streamfx as sx, exc
 from vlib.facts import strip
 
 PID = "C02"
@@ -87,6 +87,10 @@ def run(db, rep, tier):
     rep.rule("R6-cacher-extent", "the caching wrapper copies exactly the cached serialization: every raw copy into the output buffer takes its "
                                  "byte count from the size() of the container it copies from", 3)
     r6(db, rep)
+    rep.rule("R7-use-after-move", "no local or parameter is read after it was handed to std::move (size bookkeeping reads the option it just "
+                                  "stored: it must do so before the move)", 5)
+    from rules import _moves
+    _moves.use_after_move(db, rep, "R7-use-after-move")
     rep.explanation = ("E-STREAMFX summarises each serialiser and each size function as a symbolic form (constants, opaque size atoms, "
                        "guarded parts, sums over containers) and compares them on the finite partition of the conditions they test: "
                        "written <= counted for header and trailer of all concrete classes (R1); cached sizes follow their lists (R2); "
@@ -253,6 +257,7 @@ def r1_invariants(db, rep):
         for atom_txt, cont, setter in lst:
             key = "%s::%s~%s" % (cls.split("::")[-1], setter, cont)
             bad = None
+            wrap_bad = None
             n = 0
             for f in db.functions.values():
                 if f.get("rec") != cls or not f.get("body"):
@@ -274,9 +279,30 @@ def r1_invariants(db, rep):
                             okp = True
                     if not okp:
                         bad = (facts.loc(f, mu), mu.get("cname"))
+                    elif want == "+":
+                        # the count lives in a k-bit header field: the increment must be dominated by count < 2^k - 1
+                        sfn = [g_ for g_ in db.fns_named(cls + "::" + setter) if g_.get("body") and len(g_["params"]) == 1]
+                        w_ = (facts.tyi(sfn[0], sfn[0]["params"][0].get("t")) or {}).get("w") if sfn else None
+                        gg = cfg.FnCFG(f)
+                        okw = False
+                        for st in sets:
+                            for op, l, r in cond.guards_facts(gg, gg.pos(st)):
+                                if r is None:
+                                    continue
+                                lt, rv = facts.expr_str(l), facts.cval(r)
+                                if setter + "()" in lt and w_ and rv is not None and \
+                                        ((op == "<" and rv <= (1 << w_) - 1) or (op == "<=" and rv <= (1 << w_) - 2)):
+                                    okw = True
+                        if w_ and not okw:
+                            wrap_bad = (facts.loc(f, mu), w_)
             if bad:
                 rep.violation("R1-size-balance", key, bad[0], "%s.%s is not accompanied by %s(%s() %s 1): header_size() counts %s entries, the serialiser writes %s.size()"
                               % (cont, bad[1], setter, setter, "+" if bad[1] in ("push_back", "insert") else "-", setter, cont))
+            elif wrap_bad:
+                rep.violation("R1-size-balance", key, wrap_bad[0],
+                              "%s() + 1 is stored in a %d-bit field without a dominating test that it is below %d: one more element than "
+                              "the field can count makes it wrap to 0 while the serialiser still writes every element of %s"
+                              % (setter, wrap_bad[1], (1 << wrap_bad[1]) - 1, cont))
             elif n == 0:
                 rep.analysis_broken("no mutation of %s::%s found" % (cls, cont))
             else:
